@@ -30,7 +30,6 @@ class AttrDict(dict):
         found = self.get(key, AttrDict.MARKER)
         if found is AttrDict.MARKER:
             found = AttrDict()
-            super(AttrDict, self).__setitem__(key, found)
         return found
 
     __setattr__, __getattr__ = __setitem__, __getitem__
